@@ -1,48 +1,11 @@
-(* Proofs/ConnOpsWitness.v — the full alignment statement of C11, its proof for the operations
-   that read the whole response before looking at error codes, and concrete witnesses
-   (by computation on the model) for the operations that return early. *)
+(* Proofs/ConnOpsWitness.v — regression instances (by computation on the model): the concrete
+   responses that left the stream misaligned / swallowed a cut before the fixes of conn.go,
+   batch.go (F2 and friends) now satisfy the property. *)
 From Coq Require Import List NArith ZArith Bool Lia.
 From KV Require Import Lib.Bits Lib.Bytes Model.Legacy Model.ConnOps.
 From KV Require Import Proofs.ConnOpsBase Proofs.ConnOpsCodec Proofs.ConnOpsProofs.
 Import ListNotations.
 Open Scope Z_scope.
-
-(* "for every well-formed response frame of (a, v) carrying any error code in any error field:
-    if the result is a Kafka error, the reader sits at the next frame boundary and the
-    connection is kept" *)
-Definition aligned_statement (a : api) (v : N) : Prop :=
-  forall w st off code rest st' s',
-    well_formed a v w -> fits (enc (resp_ty a v) w) -> closed st = false ->
-    conn_do st (mkOp a v off) (frame (wrap32 (corr st + 1)) (enc (resp_ty a v) w) ++ rest)
-      = (st', RErr (EKafka code), s') ->
-    s' = rest /\ closed st' = false.
-
-Theorem aligned_schema a v : schema_api a = true -> aligned_statement a v.
-Proof.
-  intros Hs w st off code rest st' s' _ Hfit Hcl H.
-  assert (Hf : op_api (mkOp a v off) <> AFetch) by (destruct a; discriminate).
-  assert (Ha : op_api (mkOp a v off) <> AApiVersions) by (destruct a; discriminate).
-  destruct (frame_exact _ _ _ _ _ _ Hcl Hf Ha H Hs) as [Hc Hcl'].
-  split; [|exact Hcl']. eapply consumed_frame_frame; eassumption.
-Qed.
-
-(* the same on arbitrary incoming bytes (no well-formedness needed) *)
-Theorem next_as_fresh st o s st' code s' o2 :
-  closed st = false -> schema_api (op_api o) = true ->
-  conn_do st o s = (st', RErr (EKafka code), s') ->
-  consumed_frame s s' /\
-  conn_do st' o2 s' = conn_do (mkConn false (corr st') (cfg_topic st) (offset st')) o2 s'.
-Proof.
-  intros Hcl Hs H.
-  assert (Hf : op_api o <> AFetch) by (destruct (op_api o); discriminate).
-  assert (Ha : op_api o <> AApiVersions) by (destruct (op_api o); discriminate).
-  destruct (frame_exact _ _ _ _ _ _ Hcl Hf Ha H Hs) as [Hc Hcl'].
-  split; [exact Hc|].
-  rewrite conn_do_generic in H by assumption. cbv zeta in H.
-  destruct (wait_response _ s) as [[[size|e0] s1] cl].
-  - destruct (op_read _ _ size s1) as [[[x|e1] sz1] s2]; inversion H; subst; reflexivity.
-  - inversion H; subst. cbn in Hcl'. subst cl. reflexivity.
-Qed.
 
 (* well-formedness of a concrete wire value, structurally (vm_compute on [wt] is exponential:
    it normalises the comparison functions under the Forall binder) *)
@@ -53,141 +16,114 @@ Ltac wt_solve :=
   repeat (cbn; first [ wt_leaf | apply Forall_cons | apply Forall_nil | apply conj ]).
 Ltac wf_solve :=
   split; [repeat autounfold with wvals; wt_solve | cbn; repeat eexists].
-Ltac refute a v w st code :=
-  let H := fresh "H" in intro H;
-  let Hwf := fresh "Hwf" in assert (Hwf : well_formed a v w) by wf_solve;
-  let Hfit := fresh "Hfit" in assert (Hfit : fits (enc (resp_ty a v) w)) by (vm_compute; reflexivity);
-  let E := fresh "E" in
-  assert (E : exists st' s', conn_do st (mkOp a v 0) (frame (wrap32 (corr st + 1)) (enc (resp_ty a v) w) ++ [])
-                              = (st', RErr (EKafka code), s') /\ s' <> [])
-    by (eexists; eexists; split; [vm_compute; reflexivity|discriminate]);
-  let st' := fresh "st'" in let s' := fresh "s'" in let Hne := fresh "Hne" in
-  destruct E as (st' & s' & E & Hne);
-  exact (Hne (proj1 (H w st 0 code [] st' s' Hwf Hfit eq_refl E))).
 
 Definition topic_t : wval := WS (Some [116%N]).
 Definition one_tp (part : wval) : wval := WL (Some [WP topic_t (WL (Some [part]))]).
-
 #[export] Hint Unfold topic_t one_tp : wvals.
-(* produce: partition error code 6, throttle 0: the 4 throttle bytes stay in the stream *)
+
+Definition hb : op := mkOp AHeartbeat 0 0.
+Definition hb_frame (id : Z) : list N := frame id (enc TI16 (WZ 0)).
+
+(* produce: partition error code 6 *)
 Definition w_produce_v2 : wval :=
   WP (one_tp (WP (WZ 0) (WP (WZ 6) (WP (WZ 5) (WZ 7))))) (WZ 0).
 Definition w_produce_v7 : wval :=
   WP (one_tp (WP (WZ 0) (WP (WZ 6) (WP (WZ 5) (WP (WZ 7) (WZ 0)))))) (WZ 0).
-#[export] Hint Unfold w_produce_v2 w_produce_v7 : wvals.
-Lemma refuted_produce_v2 : ~ aligned_statement AProduce 2.
-Proof. refute AProduce 2%N w_produce_v2 (fresh [116%N]) 6. Qed.
-Lemma refuted_produce_v3 : ~ aligned_statement AProduce 3.
-Proof. refute AProduce 3%N w_produce_v2 (fresh [116%N]) 6. Qed.
-Lemma refuted_produce_v7 : ~ aligned_statement AProduce 7.
-Proof. refute AProduce 7%N w_produce_v7 (fresh [116%N]) 6. Qed.
-
-(* fetch v5 / v10: partition error code 1 (OffsetOutOfRange), no aborted transactions, empty
-   message set: the 4-byte message-set size stays in the stream *)
+Definition w_produce_v2_thr6 : wval :=
+  WP (one_tp (WP (WZ 0) (WP (WZ 6) (WP (WZ 5) (WZ 7))))) (WZ 6).
+(* fetch v5 / v10: partition error code 1, no aborted transactions, empty message set;
+   v10 top-level error 6; v2 partition error with a non-empty (opaque) message set *)
 Definition fetch_part_v5 (e : Z) : wval :=
   WP (WZ 0) (WP (WZ e) (WP (WZ 10) (WP (WZ 10) (WP (WZ 0) (WP (WL (Some [])) (WS (Some []))))))).
 Definition w_fetch_v5 : wval := WP (WZ 0) (one_tp (fetch_part_v5 1)).
 Definition w_fetch_v10_part : wval := WP (WZ 0) (WP (WZ 0) (WP (WZ 0) (one_tp (fetch_part_v5 1)))).
 Definition w_fetch_v10_top : wval := WP (WZ 0) (WP (WZ 6) (WP (WZ 0) (one_tp (fetch_part_v5 0)))).
-(* fetch v2: partition error with a non-empty message set (3 opaque bytes) *)
 Definition w_fetch_v2 : wval :=
   WP (WZ 0) (one_tp (WP (WZ 0) (WP (WZ 1) (WP (WZ 10) (WS (Some [1%N; 2%N; 3%N])))))).
-#[export] Hint Unfold fetch_part_v5 w_fetch_v5 w_fetch_v10_part w_fetch_v10_top w_fetch_v2 : wvals.
-Lemma refuted_fetch_partition_v5 : ~ aligned_statement AFetch 5.
-Proof. refute AFetch 5%N w_fetch_v5 (fresh [116%N]) 1. Qed.
-Lemma refuted_fetch_partition_v10 : ~ aligned_statement AFetch 10.
-Proof. refute AFetch 10%N w_fetch_v10_part (fresh [116%N]) 1. Qed.
-Lemma refuted_fetch_toplevel_v10 : ~ aligned_statement AFetch 10.
-Proof. refute AFetch 10%N w_fetch_v10_top (fresh [116%N]) 6. Qed.
-Lemma refuted_fetch_partition_v2 : ~ aligned_statement AFetch 2.
-Proof. refute AFetch 2%N w_fetch_v2 (fresh [116%N]) 1. Qed.
+#[export] Hint Unfold w_produce_v2 w_produce_v7 w_produce_v2_thr6 fetch_part_v5 w_fetch_v5
+  w_fetch_v10_part w_fetch_v10_top w_fetch_v2 : wvals.
 
-(* what the NEXT operation sees after the produce witness: io.ErrNoProgress, connection kept *)
-Definition hb : op := mkOp AHeartbeat 0 0.
-Definition hb_frame (id : Z) : list N := frame id (enc TI16 (WZ 0)).
-Lemma produce_then_next_noprogress :
-  conn_run (fresh [116%N]) [mkOp AProduce 2 0; hb]
-    (frame 1 (enc (resp_ty AProduce 2) w_produce_v2) ++ hb_frame 2)
-  = (mkConn false 2 [116%N] (-1), [RErr (EKafka 6); RErr ENoProgress],
-     [0;0;0;0]%N ++ hb_frame 2).
+(* after the Kafka error the next operation succeeds and nothing is left in the stream *)
+Definition then_next_ok (a : api) (v : N) (off : Z) (w : wval) (code : Z) : Prop :=
+  conn_run (fresh [116%N]) [mkOp a v off; hb] (frame 1 (enc (resp_ty a v) w) ++ hb_frame 2)
+  = (mkConn false 2 [116%N] (match a with AFetch => off | _ => -1 end),
+     [RErr (EKafka code); ROk (VZ 0)], []).
+
+Lemma produce_v2_then_next_ok : then_next_ok AProduce 2 0 w_produce_v2 6.
+Proof. vm_compute. reflexivity. Qed.
+Lemma produce_v3_then_next_ok : then_next_ok AProduce 3 0 w_produce_v2 6.
+Proof. vm_compute. reflexivity. Qed.
+Lemma produce_v7_then_next_ok : then_next_ok AProduce 7 0 w_produce_v7 6.
+Proof. vm_compute. reflexivity. Qed.
+Lemma fetch_v5_partition_then_next_ok : then_next_ok AFetch 5 3 w_fetch_v5 1.
+Proof. vm_compute. reflexivity. Qed.
+Lemma fetch_v10_partition_then_next_ok : then_next_ok AFetch 10 3 w_fetch_v10_part 1.
+Proof. vm_compute. reflexivity. Qed.
+Lemma fetch_v10_toplevel_then_next_ok : then_next_ok AFetch 10 3 w_fetch_v10_top 6.
+Proof. vm_compute. reflexivity. Qed.
+Lemma fetch_v2_partition_then_next_ok : then_next_ok AFetch 2 3 w_fetch_v2 1.
 Proof. vm_compute. reflexivity. Qed.
 
-(* bytes of one response interpreted as part of another: produce error with throttle 6 leaves
-   00 00 00 06; the peer answers the following heartbeats (ids 2,3,...) with 6-byte frames.
-   ids 2..5 fail with ErrNoProgress WITHOUT closing; at id 6 the leftover throttle is taken
-   as a size field and the first frame's size field (6) as the correlation id: the heartbeat
-   "succeeds" on the upper half of a foreign correlation id. *)
-Definition w_produce_v2_thr6 : wval :=
-  WP (one_tp (WP (WZ 0) (WP (WZ 6) (WP (WZ 5) (WZ 7))))) (WZ 6).
-Lemma cross_interpretation_witness :
-  exists st s,
-    conn_run (fresh [116%N]) [mkOp AProduce 2 0; hb; hb; hb; hb; hb]
-      (frame 1 (enc (resp_ty AProduce 2) w_produce_v2_thr6)
-       ++ hb_frame 2 ++ hb_frame 3 ++ hb_frame 4 ++ hb_frame 5 ++ hb_frame 6)
-    = (st, [RErr (EKafka 6); RErr ENoProgress; RErr ENoProgress; RErr ENoProgress;
-            RErr ENoProgress; ROk (VZ 0)], s) /\ closed st = false.
-Proof. eexists. eexists. split; [vm_compute; reflexivity|reflexivity]. Qed.
+(* the former cross-interpretation scenario (produce error with throttle 6, then heartbeats):
+   every heartbeat now reads its own frame *)
+Lemma former_cross_interpretation_ok :
+  conn_run (fresh [116%N]) [mkOp AProduce 2 0; hb; hb; hb; hb; hb]
+    (frame 1 (enc (resp_ty AProduce 2) w_produce_v2_thr6)
+     ++ hb_frame 2 ++ hb_frame 3 ++ hb_frame 4 ++ hb_frame 5 ++ hb_frame 6)
+  = (mkConn false 6 [116%N] (-1),
+     [RErr (EKafka 6); ROk (VZ 0); ROk (VZ 0); ROk (VZ 0); ROk (VZ 0); ROk (VZ 0)], []).
+Proof. vm_compute. reflexivity. Qed.
 
-(* ---- truncation, the operations outside conn_cut_schema ---- *)
-(* ApiVersions does not go through Conn.do: a cut inside its body is an error, but the Conn
-   does not close its connection *)
-Definition w_apiversions : wval := WP (WZ 0) (WL (Some [WP (WZ 0) (WP (WZ 0) (WZ 7))])).
-Lemma apiversions_cut_not_closed :
-  forall k, (8 <= k < 18)%nat ->
-  exists st' s', conn_do (fresh []) (mkOp AApiVersions 0 0)
-                   (firstn k (frame 1 (enc (resp_ty AApiVersions 0) w_apiversions)))
-                 = (st', RErr EEOF, s') /\ closed st' = false.
-Proof.
-  intros k Hk.
-  assert (Hc : In k [8;9;10;11;12;13;14;15;16;17]%nat) by (cbn; lia).
-  cbn [In] in Hc.
-  repeat (destruct Hc as [Hc|Hc]; [subst k; eexists; eexists; split; [vm_compute; reflexivity|reflexivity]|]).
-  contradiction.
-Qed.
-
-(* produce with a partition error, cut inside the throttle field the reader never reads:
-   the Kafka error is returned and the connection kept although the peer is gone *)
-Lemma produce_error_cut_in_throttle :
-  exists st' s',
-    conn_do (fresh [116%N]) (mkOp AProduce 2 0)
-      (firstn 43 (frame 1 (enc (resp_ty AProduce 2) w_produce_v2)))
-    = (st', RErr (EKafka 6), s') /\ closed st' = false.
-Proof. eexists. eexists. split; [vm_compute; reflexivity|reflexivity]. Qed.
-
-(* fetch: ReadBatch + Close without reading a message.  A 36-byte magic-1 message set
-   (one message, key null, value "ab"); a cut after the message header is swallowed:
-   Batch.close ignores the error of msgs.discard(), returns nil and keeps the Conn. *)
+(* fetch with highWaterMark = offset and a non-empty message set: the set is discarded *)
 Definition msgset_v1 : list N :=
   put_bes 8 7 ++ put_bes 4 24 ++ put_bes 4 0 ++ [1%N; 0%N] ++ put_bes 8 1000
   ++ put_bes 4 (-1) ++ put_bes 4 2 ++ [97%N; 98%N].
 Definition w_fetch_ok_v2 : wval :=
   WP (WZ 0) (one_tp (WP (WZ 0) (WP (WZ 0) (WP (WZ 100) (WS (Some msgset_v1)))))).
+Lemma fetch_hwm_eq_offset_then_next_ok :
+  conn_run (fresh [116%N]) [mkOp AFetch 2 100; hb]
+    (frame 1 (enc (resp_ty AFetch 2) w_fetch_ok_v2) ++ hb_frame 2)
+  = (mkConn false 2 [116%N] 100, [ROk (VL [VZ 0; VZ 100]); ROk (VZ 0)], []).
+Proof. vm_compute. reflexivity. Qed.
 Lemma fetch_full_ok :
   conn_do (fresh [116%N]) (mkOp AFetch 2 7) (frame 1 (enc (resp_ty AFetch 2) w_fetch_ok_v2))
   = (mkConn false 1 [116%N] 7, ROk (VL [VZ 0; VZ 100]), []).
 Proof. vm_compute. reflexivity. Qed.
-(* cut inside the fetch header or the first message header: io.ErrUnexpectedEOF, closed *)
-Lemma fetch_cut_header :
-  forall k, (k < 67)%nat ->
+
+(* ---- truncation ---- *)
+Ltac all_cuts :=
+  match goal with Hc : In _ _ |- _ =>
+    cbn [seq In] in Hc;
+    repeat (destruct Hc as [Hc|Hc];
+            [subst; eexists; eexists; split; [vm_compute; reflexivity|reflexivity]|]);
+    contradiction
+  end.
+
+(* ApiVersions (18-byte frame), every cut: io.EOF and the Conn is closed *)
+Definition w_apiversions : wval := WP (WZ 0) (WL (Some [WP (WZ 0) (WP (WZ 0) (WZ 7))])).
+Lemma apiversions_cut_closed :
+  forall k, (k < 20)%nat ->
+  exists st' s', conn_do (fresh []) (mkOp AApiVersions 0 0)
+                   (firstn k (frame 1 (enc (resp_ty AApiVersions 0) w_apiversions)))
+                 = (st', RErr EEOF, s') /\ closed st' = true.
+Proof. intros k Hk. assert (Hc : In k (seq 0 20)) by (apply in_seq; lia). all_cuts. Qed.
+
+(* produce error response (45-byte frame) cut inside the trailing throttle field: the skip of
+   the remainder now meets the end of the stream *)
+Lemma produce_error_cut_in_throttle :
+  forall k, (41 <= k < 45)%nat ->
+  exists st' s',
+    conn_do (fresh [116%N]) (mkOp AProduce 2 0)
+      (firstn k (frame 1 (enc (resp_ty AProduce 2) w_produce_v2)))
+    = (st', RErr EEOF, s') /\ closed st' = true.
+Proof. intros k Hk. assert (Hc : In k (seq 41 4)) by (apply in_seq; lia). all_cuts. Qed.
+
+(* fetch (ReadBatch + Close without reading), 77-byte frame with one magic-1 message: a cut
+   anywhere — header, first message header, or the part Close discards — is reported as
+   io.ErrUnexpectedEOF and the Conn is closed *)
+Lemma fetch_cut_anywhere :
+  forall k, (k < 77)%nat ->
   exists st' s', conn_do (fresh [116%N]) (mkOp AFetch 2 7)
                    (firstn k (frame 1 (enc (resp_ty AFetch 2) w_fetch_ok_v2)))
                  = (st', RErr EUnexpEOF, s') /\ closed st' = true.
-Proof.
-  intros k Hk.
-  assert (Hc : In k (seq 0 67)) by (apply in_seq; lia).
-  cbn [seq In] in Hc.
-  repeat (destruct Hc as [Hc|Hc]; [subst k; eexists; eexists; split; [vm_compute; reflexivity|reflexivity]|]).
-  contradiction.
-Qed.
-Lemma fetch_close_swallows_cut :
-  forall k, (67 <= k < 77)%nat ->
-  exists st' s', conn_do (fresh [116%N]) (mkOp AFetch 2 7)
-                   (firstn k (frame 1 (enc (resp_ty AFetch 2) w_fetch_ok_v2)))
-                 = (st', ROk (VL [VZ 0; VZ 100]), s') /\ closed st' = false.
-Proof.
-  intros k Hk.
-  assert (Hc : In k (seq 67 10)) by (apply in_seq; lia).
-  cbn [seq In] in Hc.
-  repeat (destruct Hc as [Hc|Hc]; [subst k; eexists; eexists; split; [vm_compute; reflexivity|reflexivity]|]).
-  contradiction.
-Qed.
+Proof. intros k Hk. assert (Hc : In k (seq 0 77)) by (apply in_seq; lia). all_cuts. Qed.
